@@ -412,6 +412,7 @@ func (ro *Roles) noteSend(fn *ssa.Function, ch ssa.Value, evSet, erSet map[*type
 func (ro *Roles) isSendEvent(f *ssa.Function) bool { return containsFn(ro.SendEvent, f) }
 func (ro *Roles) isSendError(f *ssa.Function) bool { return containsFn(ro.SendError, f) }
 func (ro *Roles) isIsClosed(f *ssa.Function) bool  { return containsFn(ro.IsClosed, f) }
+
 // closedLit: is l a test of "the done channel is closed"? Either a call of an isClosed function, or the inlined form:
 // the case index of a non-blocking select whose only case receives from done. saysClosed: the literal holds iff closed.
 func (ro *Roles) closedLit(l Lit) (isTest, saysClosed bool) {
